@@ -981,8 +981,16 @@ void bn_rec_frb(bn_t *ki, int sub, const bn_t k, const bn_t x, const bn_t n,
 			sx = bn_sign(x);
 
 			for (i = 0; i < sub; i++) {
-				bn_mod(ki[i], v[0], u[0]);
-				bn_div(v[0], v[0], u[0]);
+				if (i == sub - 1) {
+					/* The last digit takes whatever is left: k can reach
+					 * |x|^sub when the group order is x^sub + ... (GMT8,
+					 * AFG16, FM16, FM18), and dropping the rest silently
+					 * computes with k mod |x|^sub. */
+					bn_copy(ki[i], v[0]);
+				} else {
+					bn_mod(ki[i], v[0], u[0]);
+					bn_div(v[0], v[0], u[0]);
+				}
 				if ((sx == RLC_NEG) && (i % 2 != 0)) {
 					bn_neg(ki[i], ki[i]);
 				}
